@@ -6,7 +6,7 @@ from .values import *   # pylint: disable=wildcard-import
 from .path import Unsupported, PathEnd
 from .interp import PyRaise, ReturnSig, exc_isinstance, EXC_PARENT, sort_of, none_obj
 from .calls import VFirstKeyIter, is_stop_fn, LOG_FUNCS
-from .values import VSuper
+from .values import VSuper, VPartial, VVec, VZip
 from . import world as world_mod
 
 MAX_DEPTH = 40
@@ -55,6 +55,8 @@ class Call2Mixin:
         return f.impl(self, args, kwargs)
       a = ([f.bound] if f.bound is not None else []) + list(args)
       return self.call_repo(f.module, f.cls, f.node, a, kwargs, closure=f.closure)
+    if isinstance(f, VPartial):
+      return self.call_value(f.fn, list(f.args) + list(args), dict(f.kwargs, **kwargs))
     if isinstance(f, VClass):
       return self.instantiate(f, args, kwargs)
     if isinstance(f, VOpaque):
